@@ -472,7 +472,7 @@ func isIdentityEncoding(b []byte) bool {
 	return true
 }
 
-// identityKeys returns identity public keys obtained in four different ways.
+// identityKeys returns identity public keys obtained in six different ways.
 func identityKeys(g *gen.G, k blsKey) []crypto.PublicKey {
 	out := []crypto.PublicKey{crypto.IdentityBLSPublicKey()}
 	enc := make([]byte, 96)
@@ -494,5 +494,28 @@ func identityKeys(g *gen.G, k blsKey) []crypto.PublicKey {
 		g.Fatalf("RemoveBLSPublicKeys(pk, [pk]) failed: %v", err)
 	}
 	out = append(out, rem)
+	// identity obtained by removing all constituents from an aggregate, at once and in two steps (the C subtraction
+	// leaves a projective point with Z = 0 and arbitrary X, Y)
+	other := decodeSK(g, big.NewInt(int64(g.Int("idOther", 2, 1<<20)))).PublicKey()
+	agg2, err := crypto.AggregateBLSPublicKeys([]crypto.PublicKey{k.pk, other})
+	if err != nil {
+		g.Fatalf("AggregateBLSPublicKeys failed: %v", err)
+	}
+	all, err := crypto.RemoveBLSPublicKeys(agg2, []crypto.PublicKey{other, k.pk})
+	if err != nil {
+		g.Fatalf("RemoveBLSPublicKeys(agg, all keys) failed: %v", err)
+	}
+	out = append(out, all)
+	step, err := crypto.RemoveBLSPublicKeys(agg2, []crypto.PublicKey{k.pk})
+	if err == nil {
+		step, err = crypto.RemoveBLSPublicKeys(step, []crypto.PublicKey{other})
+	}
+	if err != nil {
+		g.Fatalf("two-step RemoveBLSPublicKeys failed: %v", err)
+	}
+	out = append(out, step)
 	return out
 }
+
+// numIdentityKinds is len(identityKeys(...)).
+const numIdentityKinds = 6
